@@ -22,6 +22,10 @@ type verdict struct {
 	outcome string // coverage label
 	reached bool   // the authenticator was consulted on a request that carries some credential
 	seen    string // what the real pipeline did (replay output)
+	steps   int    // pipelines executed (sequences: one per step)
+	// rejudge: the same observation judged as if the transport-wide default credential
+	// had been d (classification of stale state only)
+	rejudge func(d *Cred) string
 }
 
 func fail(class, format string, a ...any) verdict {
@@ -73,19 +77,42 @@ func jsonKey(v any) string { b, _ := json.Marshal(v); return string(b) }
 func checkUnit(c Case) verdict {
 	sh := &shared{}
 	v := checkUnitOn(c, sh)
+	v.steps = 1
+	earlier := []*Cred{c.Client.Default} // values DefaultAuthentication had at earlier steps
 	step := 1
 	for n := c.Then; n != nil && v.class == ""; n = n.Then {
 		step++
-		if n.Mode != "unit" || jsonKey(n.Client.Default) != jsonKey(c.Client.Default) {
-			return verdict{outcome: "skipped-ambiguous:sequence steps must be unit cases with the same default credential"}
+		if n.Mode != "unit" {
+			return verdict{outcome: "skipped-ambiguous:sequence steps must be unit cases"}
 		}
+		reassigned := jsonKey(n.Client.Default) != jsonKey(earlier[len(earlier)-1])
 		vn := checkUnitOn(*n, sh)
 		if vn.class != "" {
-			vn.class += "/after-other-requests-on-shared-instances"
+			stale := false
+			if vn.rejudge != nil {
+				for _, d := range earlier {
+					if jsonKey(d) != jsonKey(n.Client.Default) && vn.rejudge(d) == "" {
+						stale = true
+						vn.what = fmt.Sprintf("the request is what the reference gives for the EARLIER value %s of Runtime.DefaultAuthentication, current value %s: %s", jsonKey(d), jsonKey(n.Client.Default), vn.what)
+						break
+					}
+				}
+			}
+			if stale {
+				vn.class = "default-auth/stale-after-reassignment"
+			} else {
+				vn.class += "/after-other-requests-on-shared-instances"
+			}
 			vn.what = fmt.Sprintf("step %d of a sequence on one Runtime and one authenticator value: %s", step, vn.what)
+			vn.steps = step
 			return vn
 		}
-		v = verdict{outcome: "seq:" + vn.outcome, reached: v.reached || vn.reached, seen: v.seen + "\n  then: " + vn.seen}
+		label := "seq:"
+		if reassigned {
+			label = "seq-default-reassigned:"
+		}
+		v = verdict{outcome: label + vn.outcome, reached: v.reached || vn.reached, seen: v.seen + "\n  then: " + vn.seen, steps: step}
+		earlier = append(earlier, n.Client.Default)
 	}
 	return v
 }
@@ -100,6 +127,11 @@ func checkUnitOn(c Case, sh *shared) verdict {
 
 	if sh.rt == nil {
 		sh.rt = newRuntime(c.Client, "c14.example")
+	} else if c.Client.Default != nil {
+		// the event between two calls: the application (re-)assigns the documented public field
+		sh.rt.DefaultAuthentication = writerFor(*c.Client.Default)
+	} else {
+		sh.rt.DefaultAuthentication = nil
 	}
 	creq, err := buildClientRequestOn(sh.rt, c.Client, "/op")
 	if err != nil {
@@ -107,6 +139,7 @@ func checkUnitOn(c Case, sh *shared) verdict {
 	}
 	// classification aid only: did the client put the default credential's slot on the request at all
 	defaultSlot := c.Client.Default != nil && slotPresent(creq, c.Client.Default)
+	snap := &http.Request{Header: creq.Header.Clone(), URL: creq.URL}
 	var sreq *http.Request
 	var raw []byte
 	if c.Wire {
@@ -128,6 +161,17 @@ func checkUnitOn(c Case, sh *shared) verdict {
 	rec.calls = nil
 	obs := authenticateWith(sh.auth, c.Server, sreq, rec)
 	v := judge(c.Client, c.Server, abs, exp, rec, obs, raw, defaultSlot)
+	if v.class != "" {
+		v.rejudge = func(d *Cred) string {
+			cl := *c.Client
+			cl.Default = d
+			a2 := abstract(&cl)
+			if a2.ambiguous != "" {
+				return "ambiguous"
+			}
+			return judge(&cl, c.Server, a2, expect(a2, c.Server), rec, obs, raw, d != nil && slotPresent(snap, d)).class
+		}
+	}
 	// observation only (MAY: the text says nothing about the body): is the request body
 	// still readable after authentication
 	if c.Wire && abs.formKind != "" && v.class == "" {
